@@ -30,6 +30,19 @@ func labelKey(vals ...string) schema.SchemaKey {
 
 // Functions is the function table of the fixture.
 func Functions() map[string]schema.FunctionSignature {
+	fs := fixtureFunctions()
+	// the fixed parameters of the variadic functions live in slices with spare capacity
+	// (built with append by a client): a query that appends to them writes into what
+	// the caller supplied
+	for _, n := range []string{"join", "format"} {
+		f := fs[n]
+		f.Params = append(make([]function.Parameter, 0, len(f.Params)+3), f.Params...)
+		fs[n] = f
+	}
+	return fs
+}
+
+func fixtureFunctions() map[string]schema.FunctionSignature {
 	return map[string]schema.FunctionSignature{
 		"upper":                    {Description: "upper converts to upper case", ReturnType: cty.String, Params: []function.Parameter{{Name: "str", Type: cty.String, Description: "input"}}},
 		"lower":                    {Description: "lower converts to lower case", ReturnType: cty.String, Params: []function.Parameter{{Name: "str", Type: cty.String}}},
